@@ -45,6 +45,12 @@ def main():
         m = json.load(open(d))
         sid = os.path.basename(os.path.dirname(d))
         out.append(f"| {sid} | {m.get('summary','')[:220].replace('|','/')} | {m.get('needs','')[:160].replace('|','/')} | {m.get('caught_by','')[:260].replace('|','/')} | {m.get('note','')[:200].replace('|','/')} |")
+    out.append("\n### 10.5 What each claimed check proves, ties and assumes (from manifest.d)\n")
+    for p in props:
+        f = os.path.join(V, "manifest.d", p["id"] + ".json")
+        if os.path.exists(f):
+            m = json.load(open(f))
+            out.append(f"**{p['id']} — {p['title']}**  \n*technique:* {m.get('technique','')}  \n*proved / tied:* {m.get('text','')}  \n*assumed / trusted:* {m.get('note','')}\n")
     text = "\n".join(out) + "\n"
     p = os.path.join(V, "DESIGN.md")
     s = open(p).read()
